@@ -24,6 +24,7 @@ type Canon struct {
 	p      *Prog
 	fields map[string]bool  // field names mentioned by loads
 	lower  map[string]int64 // inductive lower bounds of counter φs: base → c with base >= c
+	upper  map[string]lin   // inductive upper bounds of down-counting φs: base → e with base <= e
 }
 
 func (c *Canon) expr(v ssa.Value) lin {
@@ -119,6 +120,35 @@ func (c *Canon) expr(v ssa.Value) lin {
 				c.lower = map[string]int64{}
 			}
 			c.lower[base] = lo
+		}
+		// down-counting idiom (for i := len(s) - 1; i >= 0; i--): one value from outside, every other edge this φ
+		// minus a non-negative constant ⇒ φ <= that value (an SSA value, so it cannot change while the loop runs)
+		var start ssa.Value
+		okDown := true
+		for _, e := range x.Edges {
+			if bo, ok := e.(*ssa.BinOp); ok && bo.X == v {
+				if k, ok := constInt(bo.Y); ok && ((bo.Op == token.SUB && k >= 0) || (bo.Op == token.ADD && k <= 0)) {
+					continue
+				}
+			}
+			if start != nil && start != e {
+				okDown = false
+			}
+			start = e
+		}
+		if in, isInstr := start.(ssa.Instruction); isInstr && in.Block() != nil && x.Block().Dominates(in.Block()) {
+			okDown = false // computed inside the loop of this φ: it may change while the counter runs
+		}
+		if okDown && start != nil && len(x.Edges) >= 2 {
+			if _, self := start.(*ssa.Phi); !self || start != v {
+				if c.upper == nil {
+					c.upper = map[string]lin{}
+				}
+				if _, busy := c.upper[base]; !busy {
+					c.upper[base] = lin{} // guard against recursion through the start value
+					c.upper[base] = c.expr(start)
+				}
+			}
 		}
 		return lin{base, 0}
 	case *ssa.Extract:
